@@ -82,7 +82,7 @@ def main():
         st = TracedStream(data)
         sys.stdout, sys.stderr = io.StringIO(), io.StringIO()
         outcome, detail, digest = None, '', ''
-        signal.setitimer(signal.ITIMER_REAL, 5.0)
+        signal.setitimer(signal.ITIMER_REAL, 20.0)
         try:
             try:
                 eid, js = pt.parsePEL(st, cfg, False)
